@@ -36,7 +36,7 @@ def _pool(rng: random.Random, n: int, k: int) -> dict[str, list[dict]]:
     pool: dict[str, list[dict]] = {"plain": [], "slm": [], "given": []}
     for i in range(k):
         for fl in pool:
-            ph = Q.gen_phys(rng, n, slm=(fl == "slm"), given=(fl == "given"))
+            ph = Q.gen_phys(rng, n, slm=(fl == "slm"), given=(fl == "given"), local2=(i % 2 == 1))
             ph["id"] = f"n{n}-{fl}-{i}"
             pool[fl].append(ph)
     return pool
@@ -163,7 +163,7 @@ def _natural_cases(rng: random.Random, sizes: list[int], per_size: int) -> list[
     for n in sizes:
         for i in range(per_size):
             fl = ["plain", "given", "plain"][i % 3]
-            ph = Q.gen_phys(rng, n, slm=False, given=(fl == "given"))
+            ph = Q.gen_phys(rng, n, slm=False, given=(fl == "given"), local2=(i % 3 == 2 or i % 4 == 1))
             ph["id"] = f"nat{n}-{i}"
             rho = list(range(n))
             rng.shuffle(rho)
